@@ -3,9 +3,10 @@
 Require Extraction.
 Require ExtrOcamlBasic.
 From Coq Require Import ZArith NArith.
-From GV Require Import GC.ClonePool.
+From GV Require Import GC.ClonePool GC.Stack.
 Extraction Language OCaml.
 Extraction "model.ml" Z.add N.add Nat.add Pos.add
   ClonePool.pool0 ClonePool.step ClonePool.closed ClonePool.regList ClonePool.sort_desc
   ClonePool.world0 ClonePool.wstep ClonePool.finc ClonePool.relc ClonePool.wantsF ClonePool.wantsR
-  ClonePool.exit_normal ClonePool.exit_killed.
+  ClonePool.exit_normal ClonePool.exit_killed
+  Stack.s0 Stack.sstep.
